@@ -177,7 +177,16 @@ func genC13(t *rapid.T) c13Case {
 		// rule condition that uses the variable again.  (Each pattern
 		// holds the variable once: the matcher dependency's recursion on
 		// repeated variables is the known finding and stays excluded.)
-		switch rapid.IntRange(0, 2).Draw(t, "selfbinding") {
+		switch rapid.IntRange(0, 3).Draw(t, "selfbinding") {
+		case 3:
+			// (not a self-binding: a script that tries to store a fact
+			// which cannot be written as JSON; the write must fail
+			// without leaving anything behind that later searches meet)
+			bad := rapid.SampledFrom([]string{"0/0", "1/0", "-1/0"}).Draw(t, "unstorable")
+			c.More = []c13Step{
+				{Role: "rule", Id: "h1", Doc: M{"when": M{"pattern": M{"poke": "?p"}}, "action": M{"code": "Env.AddFact('bad', {canary: 'bad', n: " + bad + "}); 'poked'"}}},
+				{Role: "event", Id: "", Doc: M{"poke": "1"}},
+			}
 		case 0:
 			c.More = []c13Step{
 				{Role: "fact", Id: "", Doc: M{"kind": "g", "template": "?w"}},
